@@ -2,7 +2,7 @@
    MapProofs and WorldProofs; the Prop_Cxx.v files restate them and close them by [exact]. *)
 From stdpp Require Import gmap list.
 From Coq Require Import NArith Lia.
-From G Require Import Arith Monad Types Inv Raw RawProofs Map MapProofs IterProofs CloneProofs Cost Fill WorldProofs.
+From G Require Import Arith Monad Types Inv Raw RawProofs Map MapProofs IterProofs CloneProofs Cost EntryProofs EntryCost Fill WorldProofs.
 Local Open Scope N_scope.
 
 (* every world reachable by a history of (so far: core) operations, from the empty world *)
@@ -168,6 +168,24 @@ Lemma T_C02_remove c k s :
   | Fault _ => True
   end.
 Proof. apply cost_run, cost_map_remove_entry. Qed.
+
+(* every step of an entry / raw-entry chain (the inserting ones included) costs at most what an
+   insert costs: its own hash plus at most R moves with one hash each, at most one allocation *)
+Lemma T_C02_entry_step c raw e st0 s :
+  match entry_step c raw e st0 s with
+  | Ok _ s' | Unwind _ s' => log_within (D (1 + cR c) (cR c) 1 2) s s'
+  | Fault _ => True
+  end.
+Proof. apply cost_run, (cost_entry_step c raw e st0). Qed.
+
+(* entry(k) followed by n steps: the lookup's hash, then n bounded steps *)
+Lemma T_C02_entry_chain c k kid ss s :
+  match map_entry c k kid ss s with
+  | Ok _ s' | Unwind _ s' =>
+      log_within (dadd (D 1 0 0 0) (dmul (N.of_nat (length ss)) (D (1 + cR c) (cR c) 1 2))) s s'
+  | Fault _ => True
+  end.
+Proof. apply cost_run, (cost_map_entry c k kid ss). Qed.
 
 (* ---------------------------------------------------------------- C10 *)
 
@@ -417,6 +435,11 @@ Proof.
   - destruct Hs as (m & md & _ & _ & [[_ ->]|[_ [m' ->]]]); apply lookup_insert_ne; congruence.
   - destruct Hs as (ma & mb & _ & _ & _ & ->). reflexivity.
   - destruct Hs as [_ ->]. apply lookup_delete_ne. congruence.
+  - destruct Hs as (m & _ & [[_ [m' ->]]|Hs]); [apply lookup_insert_ne; congruence|].
+    destruct (ref_chain _ _ _ _ _); [contradiction| |]; destruct Hs as [_ ->]; apply lookup_insert_ne; congruence.
+  - destruct Hs as (m & _ & [[_ [m' ->]]|Hs]); [apply lookup_insert_ne; congruence|].
+    destruct (ref_chain _ _ _ _ _); [contradiction| |]; destruct Hs as [_ ->]; apply lookup_insert_ne; congruence.
+  - destruct Hs as (m & _ & _ & ->). reflexivity.
 Qed.
 
 (* ---------------------------------------------------------------- C14 *)
@@ -454,6 +477,127 @@ Proof.
   injection Hrun as <- _. destruct Hg as (_ & Ho & _). exists (rt_abs (m_rt ms)). split; [apply wabs_lookup; exact Hs|exact Ho].
 Qed.
 
+(* ---------------------------------------------------------------- C12 *)
+
+(* entry(k) / raw_entry_mut() report Occupied exactly when the key is present, and the handle
+   records where the element is stored: in the new table, or among the old table's leftovers *)
+Lemma T_C12_occupied_iff c r k :
+  Inv (cR c) (cesz c) r ->
+  (rt_abs r !! k = None <-> rt_find_pure r k = None) /\
+  (forall im x, rt_find_pure r k = Some (im, x) ->
+     rt_abs r !! k = Some x /\
+     if im then hel (main r) !! k = Some x
+     else hel (main r) !! k = None /\ exists o, lo r = Some o /\ lookup_list k (orem o) = Some x).
+Proof.
+  intros HI. pose proof (rt_find_abs c r k HI) as H. split.
+  - rewrite H. destruct (rt_find_pure r k) as [[im x]|]; cbn; split; congruence.
+  - intros im x Hf. rewrite H, Hf. split; [reflexivity|]. destruct im; [apply rt_find_main|apply rt_find_old]; exact Hf.
+Qed.
+
+(* every accessor of a handle acts on the element the handle designates, wherever it is stored:
+   one step of a chain refines the reference step on the plain contents, keeps the invariant,
+   and leaves a handle that still designates its element *)
+Lemma T_C12_step c raw e st0 s :
+  Inv (cR c) (cesz c) (s_rt s) -> ent_ok (s_rt s) e ->
+  wp (entry_step c raw e st0) (EntryProofs.step_Q c raw s e st0) (EntryProofs.step_U c raw s e st0) s.
+Proof. apply entry_step_spec. Qed.
+
+(* an inserting call returns a handle that designates the newly stored element, which lies in
+   the new (main) table even when the call started a resize or moved other elements; writes
+   through the handle are seen by later lookups because later steps and lookups find that
+   same element (T_C12_step, T_C12_chain) *)
+Lemma T_C12_insert_handle c raw e st0 s r s' im k held :
+  Inv (cR c) (cesz c) (s_rt s) -> ent_ok (s_rt s) e ->
+  entry_step c raw e st0 s = Ok r s' -> fst r = EOcc im k held ->
+  (exists kk h, e = EVac kk h) ->
+  im = true /\ exists x, hel (main (s_rt s')) !! k = Some x /\ rt_abs (s_rt s') !! k = Some x.
+Proof.
+  intros HI Hok Hrun Hr (kk & h & ->). pose proof (entry_step_spec c raw (EVac kk h) st0 s HI Hok) as H.
+  unfold wp in H. rewrite Hrun in H. destruct H as (HI' & Hok' & _). rewrite Hr in Hok'. cbn [ent_ok] in Hok'.
+  destruct Hok' as [x Hx].
+  assert (im = true) as ->.
+  { destruct st0, h as [h|]; cbn [entry_step] in Hrun; try discriminate;
+      unfold bind in Hrun;
+      repeat match type of Hrun with
+             | match ?m s with _ => _ end = _ => destruct (m s) as [? ?|? ?|?]; try discriminate
+             | match ?m ?z with _ => _ end = _ => destruct (m z) as [? ?|? ?|?]; try discriminate
+             end; unfold ret in Hrun; injection Hrun as <- _; cbn [fst] in Hr; congruence. }
+  split; [reflexivity|]. exists x. split; [apply rt_find_main; exact Hx|].
+  rewrite (rt_find_abs c _ k HI'), Hx. reflexivity.
+Qed.
+
+(* whole chains, at the level of histories: the outcomes of all steps and the final contents
+   are those of the reference chain on the plain map *)
+Lemma T_C12_chain c w t s k kid ss o w' :
+  0 < cR c -> WInv c w -> t_op t = OEntry s k kid ss -> step c w t = Ok o w' ->
+  WInv c w' /\ chain_rel false (Some kid) (wabs w) s k ss o (wabs w').
+Proof.
+  intros HR HW Eop Hrun. assert (Hc : core_op (t_op t)) by (rewrite Eop; exact I).
+  destruct (T_step_ok c w t o w' HR HW Hc Hrun) as [HW' Hs]. rewrite Eop in Hs. auto.
+Qed.
+
+Lemma T_C12_raw_chain c w t s variant k ss o w' :
+  0 < cR c -> WInv c w -> t_op t = ORawEntry s variant k ss -> step c w t = Ok o w' ->
+  WInv c w' /\ chain_rel true None (wabs w) s k ss o (wabs w').
+Proof.
+  intros HR HW Eop Hrun. assert (Hc : core_op (t_op t)) by (rewrite Eop; exact I).
+  destruct (T_step_ok c w t o w' HR HW Hc Hrun) as [HW' Hs]. rewrite Eop in Hs. auto.
+Qed.
+
+(* raw_entry().from_*: a read-only lookup of the same contents *)
+Lemma T_C12_raw_get c w t s variant k o w' :
+  0 < cR c -> WInv c w -> t_op t = ORawGet s variant k -> step c w t = Ok o w' ->
+  WInv c w' /\ exists m : gmap N elem, wabs w !! s = Some m /\
+    o = OutOKV ((fun e => (ekid e, ev e)) <$> m !! k) /\ wabs w' = wabs w.
+Proof.
+  intros HR HW Eop Hrun. assert (Hc : core_op (t_op t)) by (rewrite Eop; exact I).
+  destruct (T_step_ok c w t o w' HR HW Hc Hrun) as [HW' Hs]. rewrite Eop in Hs. auto.
+Qed.
+
+(* replace_entry_with(None) followed by inserting through the returned vacant handle leaves
+   exactly one element for the key (the contents are a finite map: one element per key), with
+   the key object the entry carried and the new value; every other key is untouched *)
+Lemma T_C12_replace_none_then_insert (m : gmap N elem) k held x d v w :
+  m !! k = Some x ->
+  exists a, ref_chain false m (AOcc k held) [SOccReplaceWith false d; SVacInsert v w] [] =
+    ROk (<[k := Elem k (ekid x) (match w with Some w => w | None => v end)]> m) a (OutS [OutU; OutN v]).
+Proof.
+  intros Hk. cbn [ref_chain ref_step]. rewrite Hk. cbn [ref_replace ref_chain ref_step app]. rewrite lookup_delete.
+  cbn [ref_chain app]. eexists. unfold put. rewrite insert_delete_insert. reflexivity.
+Qed.
+
+(* finding D6 (recorded, not repaired): Entry::insert on a vacant entry returns an occupied
+   handle that carries no key, so replace_key / replace_entry on it unwrap None.  This is the
+   only way a chain of the typed entry API panics: chains without Entry::insert never do. *)
+Definition no_entry_insert (ss : list estep) : Prop :=
+  Forall (fun s => match s with SInsertE _ => False | _ => True end) ss.
+Definition holds_key (a : aent) : Prop := match a with AOcc _ None | AVac _ None => False | _ => True end.
+
+Lemma T_C12_no_panic_outside_D6 : forall ss (m : gmap N elem) a acc,
+  no_entry_insert ss -> holds_key a ->
+  forall p m', ref_chain false m a ss acc <> RPanic p m'.
+Proof.
+  induction ss as [|s ss IH]; intros m a acc Hss Ha p m'; cbn [ref_chain]; [discriminate|].
+  apply Forall_cons in Hss as [Hs Hss].
+  destruct (ref_step false m a s) as [|p1 m1|m1 a1 o1] eqn:E; [discriminate| |].
+  - exfalso. destruct a as [k [h|]|k [h|]|]; cbn [holds_key] in Ha; try contradiction; cbn [ref_step] in E.
+    + destruct (m !! k); [|discriminate]. destruct s; try discriminate; unfold ref_replace in E; destruct keep; discriminate.
+    + destruct (m !! k); [discriminate|]. destruct s; discriminate.
+    + discriminate.
+  - apply IH; [exact Hss|].
+    destruct a as [k [h|]|k [h|]|]; cbn [holds_key] in Ha; try contradiction; cbn [ref_step] in E.
+    + destruct (m !! k); [|discriminate].
+      destruct s; try discriminate; unfold ref_replace in E; try destruct keep; injection E as _ <- _; exact I.
+    + destruct (m !! k); [discriminate|]. destruct s; try discriminate; try contradiction; injection E as _ <- _; exact I.
+    + discriminate.
+Qed.
+
+(* the witness of D6: the shortest failing chain, evaluated on the reference *)
+Lemma T_C12_D6_witness :
+  ref_chain false ∅ (AVac 5 (Some 7)) [SInsertE 1; SOccReplaceKey] [] =
+    RPanic PUnwrapNone (<[5 := Elem 5 7 1]> ∅).
+Proof. reflexivity. Qed.
+
 (* ---------------------------------------------------------------- non-vacuity: a concrete
    history reaches a state in the middle of a resize (R = 8, 15 insertions into an empty map) *)
 Definition ex_cfg : cfg := Cfg 8 true false 24.
@@ -461,12 +605,26 @@ Definition ex_ins (k : N) : traced := T (OInsert 0 k k (1000 + k)) 0 0 [] [].
 Definition ex_hist : list traced :=
   T (ONew 0 1 0) 0 0 [] [] :: map ex_ins [0; 1; 2; 3; 4; 5; 6; 7; 8; 9; 10; 11; 12; 13; 14].
 
+Definition ex_probe : option (N * N * N) :=
+  match run ex_cfg world0 ex_hist [] with
+  | inl (w, _) => match w_maps w !! 0 with
+                  | Some m => match lo (m_rt m) with
+                              | Some o => Some (ocnt o, hn (main (m_rt m)), hgl (main (m_rt m)))
+                              | None => None
+                              end
+                  | None => None
+                  end
+  | inr _ => None
+  end.
+
 Example ex_mid_resize :
   exists w outs m o, run ex_cfg world0 ex_hist [] = inl (w, outs) /\ w_maps w !! 0 = Some m /\
                      lo (m_rt m) = Some o /\ ocnt o = 6 /\ hn (main (m_rt m)) = 9 /\ hgl (main (m_rt m)) = 19.
 Proof.
-  destruct (run ex_cfg world0 ex_hist []) as [[w outs]|f] eqn:E; vm_compute in E; [|discriminate].
-  injection E as <- <-. do 4 eexists. repeat split; vm_compute; reflexivity.
+  assert (H : ex_probe = Some (6, 9, 19)) by (vm_compute; reflexivity).
+  unfold ex_probe in H. destruct (run ex_cfg world0 ex_hist []) as [[w outs]|f]; [|discriminate].
+  destruct (w_maps w !! 0) as [m|] eqn:E1; [|discriminate]. destruct (lo (m_rt m)) as [o|] eqn:E2; [|discriminate].
+  injection H as H1 H2 H3. exists w, outs, m, o. split; [reflexivity|]. do 3 (split; [assumption|]). split; assumption.
 Qed.
 
 Example ex_core : Forall core_op (map t_op ex_hist).
